@@ -194,6 +194,17 @@ func (g *Gen) aTime() time.Time {
 	return time.Unix(int64(g.R.Range(0, 8))*86400*365, 0).UTC()
 }
 
+// zoned: the same instant, one time in three in another representation (a fixed zone east or west of UTC)
+func (g *Gen) zoned(t time.Time) time.Time {
+	switch g.R.Intn(6) {
+	case 0:
+		return t.In(time.FixedZone("E", 2*3600))
+	case 1:
+		return t.In(time.FixedZone("", -5*3600-1800))
+	}
+	return t
+}
+
 func (g *Gen) primD(pk string, allowZero bool) D {
 	r := g.R
 	switch pk {
@@ -239,6 +250,9 @@ func (g *Gen) primD(pk string, allowZero bool) D {
 		}
 		if !allowZero && t.Unix() == 0 {
 			t = time.Unix(86400, 0).UTC() // (the year-1 instant with a location stays: it is a populated value)
+		}
+		if t.Location() == time.UTC && !t.IsZero() {
+			t = g.zoned(t)
 		}
 		return D{K: "t", T: t}
 	}
@@ -771,7 +785,7 @@ func (g *Gen) Input(n *Node) V {
 			if n.Layout != "" {
 				layout = n.Layout
 			}
-			return rng.Pick(r, []V{VTime(t), VTime(t), VInt(t.Unix()), {K: "i", IK: "i64", I: t.Unix()}, VStr(t.Format(time.RFC3339)), VStr(t.Format(layout)), VStr(t.Format(layout)),
+			return rng.Pick(r, []V{VTime(t), VTime(g.zoned(t)), VInt(t.Unix()), {K: "i", IK: "i64", I: t.Unix()}, VStr(t.Format(time.RFC3339)), VStr(g.zoned(t).Format(time.RFC3339)), VStr(t.Format(layout)), VStr(t.Format(layout)),
 				VStr("2024-05-06"), VStr("zz"), VF64(1), VStr("20240131"), VStr("1733007600"), VStr("2024")})
 		}
 	case "slice":
